@@ -18,14 +18,16 @@ class Untranslatable(Exception):
 
 FLAVOURS = {
     # type, exp, pow(real exponent), sqrt, abs, noncomputable
-    'real': dict(T='ℝ', exp='Real.exp', rpow='Real.rpow', sqrt='Real.sqrt', abs='abs', nc=True),
-    'float': dict(T='Float', exp='Float.exp', rpow='Float.pow', sqrt='Float.sqrt', abs='Float.abs', nc=False),
+    'real': dict(T='ℝ', exp='Real.exp', rpow='Real.rpow', sqrt='Real.sqrt', abs='abs', nc=True,
+                 pi='Real.pi', sin='Real.sin', arccos='Real.arccos'),
+    'float': dict(T='Float', exp='Float.exp', rpow='Float.pow', sqrt='Float.sqrt', abs='Float.abs', nc=False,
+                  pi='Skg.piF', sin='Float.sin', arccos='Float.acos'),
     'rat': dict(T='Rat', exp=None, rpow=None, sqrt=None, abs='Skg.absR', nc=False),
 }
 
 
 class Emitter:
-    def __init__(self, flavour, vec=None, subst=None, funcs=(), extern=None):
+    def __init__(self, flavour, vec=None, subst=None, funcs=(), extern=None, selfattrs=(), ret_decide=False):
         self.fl = FLAVOURS[flavour]
         self.flavour = flavour
         self.T = self.fl['T']
@@ -33,6 +35,8 @@ class Emitter:
         self.subst = subst or {}  # source-text of a sub-expression -> lean variable
         self.funcs = set(funcs)   # names of function-valued parameters
         self.extern = extern or {}  # dotted python name -> lean function name (parameters)
+        self.selfattrs = set(selfattrs)  # `self.x` readable as parameter x
+        self.ret_decide = ret_decide
 
     # ---------------------------------------------------------------- expressions
     def const(self, v):
@@ -79,6 +83,10 @@ class Emitter:
                 raise Untranslatable('bare vector use')
             return e.id
         if isinstance(e, ast.Attribute):
+            if src == 'np.pi' and self.fl.get('pi'):
+                return self.fl['pi']
+            if isinstance(e.value, ast.Name) and e.value.id == 'self' and e.attr in self.selfattrs:
+                return e.attr
             if isinstance(e.value, ast.Name) and e.value.id == self.vec and e.attr == 'size':
                 return f'(({self.vec}.length : Nat) : {self.T})' if self.flavour != 'float' \
                     else f'(Float.ofNat {self.vec}.length)'
@@ -89,6 +97,8 @@ class Emitter:
             if isinstance(e.op, ast.Pow):
                 return self.pow(e.left, e.right)
             a, b = self.expr(e.left), self.expr(e.right)
+            if isinstance(e.op, ast.BitAnd):
+                return f'({a} ∧ {b})'
             op = {ast.Add: '+', ast.Sub: '-', ast.Mult: '*', ast.Div: '/'}.get(type(e.op))
             if op is None:
                 raise Untranslatable('operator in ' + src)
@@ -107,6 +117,15 @@ class Emitter:
                 if self.fl['sqrt'] is None:
                     raise Untranslatable('sqrt in exact flavour')
                 return f'({self.fl["sqrt"]} {self.expr(e.args[0])})'
+            if fn == 'np.radians' and len(e.args) == 1 and self.fl.get('pi'):
+                return f'(({self.expr(e.args[0])} * {self.fl["pi"]}) / 180)'
+            if fn == 'np.sin' and len(e.args) == 1 and self.fl.get('sin'):
+                return f'({self.fl["sin"]} {self.expr(e.args[0])})'
+            if fn == 'np.arccos' and len(e.args) == 1 and self.fl.get('arccos'):
+                return f'({self.fl["arccos"]} {self.expr(e.args[0])})'
+            if fn == 'np.where' and len(e.args) == 3:
+                c, a, b = (self.expr(x) for x in e.args)
+                return f'(if {c} then {a} else {b})'
             if fn == 'np.abs' and len(e.args) == 1:
                 return f'({self.fl["abs"]} {self.expr(e.args[0])})'
             if fn == 'np.sum' and len(e.args) == 1 and self.vec:
@@ -156,7 +175,7 @@ class Emitter:
                         f'{self.body(stmts[1:])}')
             raise Untranslatable('assignment ' + ast.unparse(st))
         if isinstance(st, ast.Return):
-            return self.expr(st.value)
+            return f'decide {self.expr(st.value)}' if self.ret_decide else self.expr(st.value)
         if isinstance(st, ast.If):
             els = st.orelse if st.orelse else stmts[1:]
             return (f'if {self.expr(st.test)} then\n{textwrap.indent(self.body(st.body), "  ")}\n'
